@@ -34,8 +34,9 @@ theorem reframeLoop_len : ∀ (l : List Byte) (sk : Bool) (acc : List Byte), acc
     exact Or.inr ⟨acc, by simp only [reframeLoop], h⟩
   | cons c rest ih =>
     intro sk acc h
-    have hN : reframeNeed = 3 := rfl
-    have hR : reframeReserve = 1 := rfl
+    -- only what the argument needs (a larger margin in the source keeps the proof valid)
+    have hN : 3 ≤ reframeNeed := by decide
+    have hR : 1 ≤ reframeReserve := by decide
     cases sk with
     | true => simp only [reframeLoop]; exact ih false acc h
     | false =>
